@@ -92,9 +92,9 @@ def cases(rng, n):
     return out
 
 
-def run(ctx, name, n):
-    """returns (number of cases, list of disagreements / decode failures)"""
-    cs = cases(ctx.rng, n)
+def run(ctx, name, n, only=None):
+    """returns (number of cases, list of disagreements / decode failures, cases per kind); only: restrict to these kinds"""
+    cs = [c for c in cases(ctx.rng, n) if only is None or c[0] in only]
     res = core.run_coq_terms(ctx, name, HEADER, [t for _, _, t in cs], shard=120)
     bad = []
     kinds = {}
